@@ -1,9 +1,37 @@
 ---- MODULE MCL ----
+(* Model-checking instance for the pair facts of Lattice.tla (C08) and the per-box facts (C19):  *)
+(* TLC checks PairFacts on every ordered pair of the alphabet XA x YA x WA x HA x KA (first box)  *)
+(* and XB x YB x WB x HB x KB (second box), and BoxFacts on every box of the second alphabet.     *)
+(* Two-stage Next (the first box is chosen first) so that the work spreads over the workers.      *)
 EXTENDS Lattice
-Boxes == [x : -2..2, y : {0, 1}, w : {1, 2, 4}, h : {2, 3}, k : {0, 1, 5, -2}]
-VARIABLES a, b
-Init == a \in Boxes /\ b \in Boxes
-Next == UNCHANGED <<a, b>>
-Inv == Symmetric(a, b) /\ Bounded(a, b) /\ SelfOne(a) /\ RigidInvariant(a, b) /\ PrefilterSound(a, b) /\ CellsAgree(a, b)
-W_NoTouch == ~(Inter16(a, b) = 0 /\ ~TooFar(a, b))
+CONSTANTS Tier      \* "tiny" (witness runs) | "quick" | "thorough"   (TLC configuration files cannot hold negative numbers)
+T(t, q, th) == IF Tier = "tiny" THEN t ELSE IF Tier = "quick" THEN q ELSE th
+XA == T({0, 1}, {0, 1}, {0, 1})
+YA == T({0}, {0, 1}, {0, 1})
+WA == T({2, 4}, {1, 2, 4}, {1, 2, 4, 5})
+HA == T({2}, {2, 3}, {2, 3, 6})
+KA == T({0, 1}, {0, 1, -2, 5}, {0, 1, -2, 5, 3, -8})
+XB == T(-2..2, -4..4, -5..5)
+YB == T({0, 2}, {-3, -1, 0, 1, 2}, -4..4)
+WB == T({2, 4}, {1, 2, 4}, {1, 2, 4, 5})
+HB == T({2}, {2, 3}, {2, 3, 6})
+KB == T({0, 1, 4}, {0, 1, 2, -1, -4}, {0, 1, 2, -1, -4, 7})
+VARIABLES stage, a, b
+vars == <<stage, a, b>>
+ABoxes == [x : XA, y : YA, w : WA, h : HA, k : KA]
+BBoxes == [x : XB, y : YB, w : WB, h : HB, k : KB]
+Nil == [x |-> 0, y |-> 0, w |-> 1, h |-> 1, k |-> 0]
+Init == stage = 0 /\ a = Nil /\ b = Nil
+Next == \/ stage = 0 /\ stage' = 1 /\ a' \in ABoxes /\ b' = b
+        \/ stage = 1 /\ stage' = 2 /\ b' \in BBoxes /\ a' = a
+Spec == Init /\ [][Next]_vars
+Inv == stage = 2 => /\ PairFacts(a, b) /\ PairFacts(b, a)
+                    /\ PolygonIsRotatedRectangle(b) /\ RoundTrip(b)
+(* reachability witnesses: each must be VIOLATED (the class of pairs exists in the alphabet) *)
+W_NoContactNotFar == ~(stage = 2 /\ Inter16(a, b) = 0 /\ ContactOnly(a, b) /\ ~TooFar(a, b))
+W_NoRotatedPartial == ~(stage = 2 /\ Class(a, b) = "partial" /\ Odd(a.k) # Odd(b.k))
+W_NoNested == ~(stage = 2 /\ Class(a, b) = "nested" /\ SharedEdgeLine(a, b))
+W_NoIdenticalOtherAngle == ~(stage = 2 /\ Class(a, b) = "identical" /\ a.k # b.k)
+W_NoTooFar == ~(stage = 2 /\ TooFar(a, b))
+W_NoDisjointNotFar == ~(stage = 2 /\ StrictlyDisjoint(a, b) /\ ~TooFar(a, b))
 ====
